@@ -25,7 +25,7 @@ def run(ctx, chk):
     chk.rule("C16.R3", "driver messages use the map entry of the executing index unmodified", floor=6)
     chk.rule("C16.R4", "syntax diagnostics use the error's own position", floor=1)
     chk.rule("C16.R6", "every assembler diagnostic cites a location of the production that raises it", floor=40)
-    chk.rule("C16.R5", "while the source is locked (macro expansion) the recorded source position cannot change", floor=2)
+    chk.rule("C16.R5", "while the source is locked (macro expansion) the recorded source position cannot change", floor=1)
     chk.rule("C16.R7", "position lookups are functions of the position alone (their objects hold no interior-mutable state)", floor=1)
     position_lookup_rule(ctx, chk)
     for nt_data in GA.g["nonterminals"]:
